@@ -1,7 +1,9 @@
 #!/bin/sh
-# development helper: tools/seed_debug.sh <seed id> <prop> -- run one check on a scratch copy with the seeded change, verbosely
+# development helper: tools/seed_debug.sh <seed id | patch file> <prop> [tier] -- run one check on a scratch worktree with the change
 set -e
 D=$(mktemp -d /tmp/seeddbg-XXXX)
-trap 'rm -rf "$D"' EXIT
-mkdir -p "$D/repo" && cd /repo && cp -r Cargo.toml Cargo.lock src "$D/repo/" && cd "$D/repo" && git apply /verif/seeded/$1/patch.diff
+P=$1; [ -f "$P" ] || P=/verif/seeded/$1/patch.diff
+trap 'git -C /repo worktree remove --force "$D/repo" 2>/dev/null; rm -rf "$D"; git -C /repo worktree prune' EXIT
+git -C /repo worktree add -q --detach "$D/repo" HEAD
+(cd "$D/repo" && (git apply "$P" 2>/dev/null || git apply --3way "$P"))
 cd /verif && VERIF_REPO="$D/repo" VERIF_EVIDENCE_DIR="$D/ev" ./check $2 ${3:+--tier $3}
